@@ -31,6 +31,12 @@ theorem loopS_none (P : Prng S G D) (n : Nat) :
       simp only [loopS, rep, ih, List.range_succ_eq_map, List.map_cons, List.map_map]
       rfl
 
+theorem loopS_int (P : Prng S G D) (s : S) (glob : G) (n : Nat) :
+    loopS P n (.int s) glob = (List.replicate n (P.draw (P.ofSeed s)).1, .int s, glob) := by
+  induction n with
+  | zero => rfl
+  | succ n ih => simp [loopS, rep, ih, List.replicate_succ]
+
 theorem loop_int (P : Prng S G D) (s : S) (glob : G) (n : Nat) :
     loop P n (.int s) glob
       = ((List.range n).map (fun k => (P.draw (advance P k (P.ofSeed s))).1), .int s, glob) := by
